@@ -149,8 +149,8 @@ Print Assumptions C06_exactly_one.
 (** A listed segment that starts at or after the end of the last period is in no period. Such a
     segment exists only with an availabilityTimeOffset of at least one segment duration
     (ato_3, 2 s segments, periods_60, now = 59 s: the segment starting at 60 s is listed in single-period mode,
-    P1 does not exist yet and P0 ends at 60 s).  Outside the quantifier of the property (no
-    availabilityTimeOffset there); the hypothesis of [C06_partition_open] excludes it. *)
+    P1 does not exist yet and P0 ends at 60 s; the served MPDs show exactly this, finding
+    c06-ato-segment-beyond-last-period).  The hypothesis of [C06_partition_open] excludes it. *)
 Theorem C06_late_segment_refuted :
   existsb (fun x => fst x =? 5400000) (expandP atoTL) = true /\
   splitPeriod 60 2000 MTimelineTime false 0 0 0 59000
@@ -215,19 +215,15 @@ Theorem C06_reject : forall pph seg mode cont ast snr st now ases,
 Proof. exact splitPeriod_reject. Qed.
 Print Assumptions C06_reject.
 
-(** ... but asset.SegmentDurMS is the minimum over the representations of the rounded average
-    segment duration: for the 29.97 fps asset it is 2000 ms while the video segments last
-    2.002 s, so periods_1 is accepted and period 1 starts inside segment 1798 (finding
-    c06-reject-uses-min-rep-duration). *)
-Theorem C06_reject_refuted :
-  (3600 * 1000 * 30000) mod (60060 * 1000) <> 0 /\
-  splitPeriod 1 2000 MNumber false 0 0 3541000 3601000 [wave2997] =
-    Ok [ {| pd_nr := 0; pd_start := 0; pd_as := [ {| o_pto := 0; o_startNr := Some 0; o_tl := None; o_cont := false |} ] |};
-         {| pd_nr := 1; pd_start := 3600;
-            pd_as := [ {| o_pto := 108000000; o_startNr := Some 1798; o_tl := None; o_cont := false |} ] |} ] /\
-  1798 * 60060 <> 108000000.
-Proof. exact reject_witness. Qed.
-Print Assumptions C06_reject_refuted.
+(** asset.SegmentDurMS is the segment duration of the reference representation (commit 1baf557;
+    before, the minimum over all representations let periods_1 through for the 29.97 fps asset,
+    2000 ms from its audio track, with period 1 starting inside video segment 1798).  With the
+    2.002 s of that asset every periods-per-hour value is rejected: no whole number of seconds
+    3600/n is a multiple of 2.002 s. *)
+Theorem C06_reject_2997 : forall pph mode cont ast snr st now ases,
+  1 <= pph <= 3600 -> exists e, splitPeriod pph 2002 mode cont ast snr st now ases = Err e.
+Proof. exact reject_2997. Qed.
+Print Assumptions C06_reject_2997.
 
 (** Continuity is signalled in every AdaptationSet of every period iff requested. *)
 Theorem C06_continuity : forall mode cont snr k P a o,
